@@ -117,9 +117,9 @@ def _summary(f: FuncInfo, stmts: Optional[List[ast.stmt]] = None) -> List[str]:
     return _alpha(_normalise(body, params), f)
 
 
-def _signature(f: FuncInfo) -> str:
+def _signature(f: FuncInfo, names: bool = True) -> str:
     a = f.node.args
-    parts = [p.arg + (":" + norm_src(p.annotation) if p.annotation is not None else "") for p in a.posonlyargs + a.args]
+    parts = [(p.arg if names else "_") + (":" + norm_src(p.annotation) if p.annotation is not None else "") for p in a.posonlyargs + a.args]
     parts += ["*" + a.vararg.arg] if a.vararg else []
     parts += [p.arg for p in a.kwonlyargs]
     parts += ["**" + a.kwarg.arg] if a.kwarg else []
@@ -198,8 +198,11 @@ def sib_wait(ctx: Ctx) -> RuleResult:
     r.require(len(hs) == 2 and {h.kind for h in hs} == {"async", "conc"}, "expected one wait helper per future kind")
     a, b = hs[1].fn, hs[0].fn  # conc, async
     _compare(r, f"{a.name} / {b.name}", a, b, _summary(a), _summary(b))
-    oks = _signature(a) == _signature(b)
-    r.ob(oks, {"signatures equal": oks})
+    # the helpers are internal and called positionally: parameter names may differ, order and types may not
+    oks = _signature(a, names=False) == _signature(b, names=False)
+    r.ob(oks, {"signatures equal (order and types)": oks})
+    if not oks:
+        r.violate(f"{a.name} / {b.name}: parameter order or types differ", a.loc(), "", {"sync": _signature(a, False), "async": _signature(b, False)})
     return r
 
 
